@@ -117,6 +117,17 @@ CHECKS = {
    design="4 C09",
    note=COMMON_NOTE + "Environment-variable defaults for the scripts are not modelled. Fixed findings F1, F6, F12.",
    technique="Lean 4 proof (case analysis on actions, induction over the configuration tree) + correspondence + per-node cryptographic verification"),
+ "C11": dict(
+   text="Lean theorems: C11_untouched (mutual induction over the recursion through dependency envelopes: at every level the output is the same tag over a map whose "
+        "integer-keyed members - manifest, authentication wrapper, severed members - are the same values as the input's), C11_moved (the payloads popped from a level are "
+        "added to the cache by exactly add_cache_slot(name, member value), in order, and the map loses exactly those members - the cache content is then characterised by "
+        "C10), C11_extract_one / C11_replace / C11_extract_keeps for payload_extract. For all predicates standing for the two regular expressions. Tie: hierarchies to "
+        "depth 3 x 5 x 6 pattern classes through cmd_cache_create.main, payload_extract with/without replacement and output file; model vs real bytes; multiset conservation "
+        "between input hierarchy, output hierarchy and decoded cache; integer-keyed members compared byte-for-byte at every level.",
+   design="4 C11",
+   note=COMMON_NOTE + "The hierarchical multiset-conservation statement itself is checked on every case, the theorems give its two halves (untouched members; moved payloads). "
+        "re.fullmatch enters as a predicate evaluated by Python.",
+   technique="Lean 4 proof (mutual induction over the dependency recursion) + correspondence + multiset conservation check on real output"),
 }
 
 NA_REASON = "check not yet built in this revision (work in progress; DESIGN.md section 4 describes the planned model and theorems)"
